@@ -37,6 +37,9 @@ CHECKS = {
  "C13": ("exploration", "multiset-conservation monitor over freelist append stream, hand-over batches and deleted bits",
          "With a flush after every mutating call the multiset of locations that stopped being current (from fsck's decoded layout) must equal the multiset of freelist entries appended (file + batches captured at the hand-over hook); consumed batches must be dead afterwards; no location marked twice or while current.",
          "sequential histories; locations never reused in the explored range", "5 C13"),
+ "C14": ("exploration", "bounded-exhaustive + random + concurrent runs at the filecache API with a shadow table of lent handles",
+         "All operation sequences up to the bound over three names and capacities incl. 0 are executed on real files; after every step the shadow table checks that lent handles are open and refer to their file, that Len/Cap/descriptor accounting identities hold and legitimate Closes succeed; a concurrent stress part (race build) checks that a held handle never fails with ErrClosed.",
+         "eviction order not modelled; exhaustive within the stated bound only", "5 C14"),
  "C15": ("exploration", "reference-model monitor at the blockstore interface incl. cancelled contexts, aliases and hash-on-read",
          "Generated blockstore histories over blocks of all sizes incl. empty, four hash functions, CIDv0/v1 x three codecs, mismatching (CID, bytes) pairs, live and cancelled contexts on every method and HashOnRead toggles are compared call by call with a map keyed by multihash and the expected error classes.",
          "digests >= 4 bytes; first write wins per multihash", "5 C15"),
@@ -46,7 +49,6 @@ NOT_YET = {
  "C05": "check under construction (concurrency engine; see DESIGN.md section 5)",
  "C06": "check under construction (concurrency engine; see DESIGN.md section 5)",
  "C12": "check under construction (see DESIGN.md section 5)",
- "C14": "check under construction (see DESIGN.md section 5)",
  "C16": "check under construction (see DESIGN.md section 5)",
  "C17": "check under construction (see DESIGN.md section 5)",
 }
